@@ -15,8 +15,8 @@ PRELUDE := -include $(H)/vsched_prelude.hpp
 
 LOCK_SRCS := pessimistic_lock optimistic_lock mcs_lock
 
-.PHONY: all lock thread zipf clean
-all: lock thread
+.PHONY: all lock thread zipf seq clean
+all: lock thread zipf seq
 
 # ---------------------------------------------------------------- shared objects (no repository code)
 $(B)/common/%.o: $(H)/%.cpp
@@ -54,6 +54,32 @@ endef
 THREAD_CAPS := 1 2 3 4 8
 $(foreach c,$(THREAD_CAPS),$(eval $(call THREAD_VARIANT,$(c))))
 thread: $(foreach c,$(THREAD_CAPS),$(B)/thread_c$(c)/thread_harness)
+
+# ---------------------------------------------------------------- Zipf family (pure; no prelude)
+$(B)/zipf/repo_zipf.o: $(REPO)/src/random/zipf.cpp
+	@mkdir -p $(dir $@)
+	$(CXX) $(COMMON) -I$(REPO)/include -c $< -o $@
+$(B)/zipf/zipf_main.o: $(H)/zipf_main.cpp
+	@mkdir -p $(dir $@)
+	$(CXX) $(COMMON) -I$(REPO)/include -c $< -o $@
+$(B)/zipf/zipf_harness: $(B)/zipf/zipf_main.o $(B)/zipf/repo_zipf.o
+	$(CXX) $(STD) $(SAN) -pthread $^ -lrapidcheck -o $@
+zipf: $(B)/zipf/zipf_harness
+
+# ---------------------------------------------------------------- C20: sequential EpochManager model (rc::state; no prelude)
+define SEQ_VARIANT
+$(B)/seq_c$(1)/repo_%.o: $(REPO)/src/thread/%.cpp
+	@mkdir -p $$(dir $$@)
+	$(CXX) $(COMMON) $(REPODEF) -DDBGROUP_MAX_THREAD_NUM=$(1) -I$(REPO)/include -c $$< -o $$@
+$(B)/seq_c$(1)/epoch_seq.o: $(H)/epoch_seq.cpp
+	@mkdir -p $$(dir $$@)
+	$(CXX) $(COMMON) $(REPODEF) -DDBGROUP_MAX_THREAD_NUM=$(1) -I$(REPO)/include -c $$< -o $$@
+$(B)/seq_c$(1)/epoch_seq: $(B)/seq_c$(1)/epoch_seq.o $(foreach s,$(THREAD_SRCS),$(B)/seq_c$(1)/repo_$(s).o)
+	$(CXX) $(STD) $(SAN) -pthread $$^ -lrapidcheck -o $$@
+endef
+SEQ_CAPS := 2 3 5
+$(foreach c,$(SEQ_CAPS),$(eval $(call SEQ_VARIANT,$(c))))
+seq: $(foreach c,$(SEQ_CAPS),$(B)/seq_c$(c)/epoch_seq)
 
 clean:
 	rm -rf $(B)
